@@ -28,7 +28,7 @@ def run(tier, seed, t0):
     floors = {
         "nontrivial_histories": (m.nontrivial, 0.5 * n),
         "splits": (m.bins.get("splits", 0), 1000), "merges": (m.bins.get("merges", 0), 1000), "swaps_done": (m.bins.get("swaps_done", 0), 20),
-        "conforming_meshes_checked": (m.bins.get("conforming_checked", 0), 3), "passes": (m.bins.get("passes", 0), 500),
+        "conforming_meshes_checked": (m.bins.get("conforming_checked", 0), 3), "repeated_pass_on_conforming_mesh": (m.bins.get("repeated_pass_on_conforming_mesh", 0), 40), "passes": (m.bins.get("passes", 0), 500),
     }
     return R.finish(ID, tier, seed, m,
                     "same history generator as C01 (different PRNG stream) plus random momenta (1e-12..1e3, 20% zero) and random face labels (4 types); "
